@@ -228,6 +228,21 @@ func (e *PathMatchExpression) pathMatches(base *Path, candidate *Path, orLeadsTo
 	return false
 }
 
+// PathIs is true only for the very node a path of the selector names, not for what is
+// below it. An empty selector names base itself.
+func (e *PathMatchExpression) PathIs(base *Path, candidate *Path) bool {
+	n := candidate.Len() - base.Len()
+	if len(e.paths) == 0 {
+		return n == 0
+	}
+	for _, path := range e.paths {
+		if len(path) == n && (n == 0 || e.match(path, base, candidate, false)) {
+			return true
+		}
+	}
+	return false
+}
+
 func (e *PathMatchExpression) match(segs segments, base *Path, candidate *Path, orLeadsTo bool) bool {
 	// idents of candidate below base
 	n := candidate.Len() - base.Len()
